@@ -1134,25 +1134,28 @@ static void check_vrange(int dx, int dy, int dz, const std::vector<ll> &only)
     const Array3D<T> *impl[3] = {act.get(), &fn, &whole};
     const char *iname[3] = {"ActualArray3D", "harness-implemented Array3D", "SubBoxArray3D(full)"};
     const char *pcls = pat < 8 ? "extremes in corners" : (pat % 2 ? "single minimum" : "single maximum");
-    for (int bz = 0; bz < dz; bz++)
-      for (int by = 0; by < dy; by++)
-        for (int bx = 0; bx < dx; bx++)
-          for (int ez = bz + 1; ez <= dz; ez++)
-            for (int ey = by + 1; ey <= dy; ey++)
-              for (int ex = bx + 1; ex <= dx; ex++) {
+    // regions may reach one cell beyond the extent on either side: the values there are what get() returns there
+    // (the nearest cell, all three implementations clamp)
+    for (int bz = -1; bz < dz; bz++)
+      for (int by = -1; by < dy; by++)
+        for (int bx = -1; bx < dx; bx++)
+          for (int ez = bz + 1; ez <= dz + 1; ez++)
+            for (int ey = by + 1; ey <= dy + 1; ey++)
+              for (int ex = bx + 1; ex <= dx + 1; ex++) {
                 if (only.size() >= 7 && !(only[1] == bx && only[2] == by && only[3] == bz && only[4] == ex && only[5] == ey && only[6] == ez))
                   continue;
-                T lo = m.at(bx, by, bz), hi = lo;
+                T lo = m.clamped(bx, by, bz), hi = lo;
                 for (int z = bz; z < ez; z++)
                   for (int y = by; y < ey; y++)
                     for (int x = bx; x < ex; x++) {
-                      lo = std::min(lo, m.at(x, y, z));
-                      hi = std::max(hi, m.at(x, y, z));
+                      lo = std::min(lo, m.clamped(x, y, z));
+                      hi = std::max(hi, m.clamped(x, y, z));
                     }
                 const bool full = bx == 0 && by == 0 && bz == 0 && ex == dx && ey == dy && ez == dz;
                 const std::string spec = base_spec + "," + sll(pat) + "," + sll(bx) + "," + sll(by) + "," + sll(bz) + "," + sll(ex) + "," + sll(ey) + "," + sll(ez);
                 const size_t cells = (size_t)(ex - bx) * (ey - by) * (ez - bz);
-                const std::string rcls = cells == 1 ? "single cell region" : full ? "full region" : "proper sub-region";
+                const bool outside = bx < 0 || by < 0 || bz < 0 || ex > dx || ey > dy || ez > dz;
+                const std::string rcls = outside ? "region reaching beyond the extent" : cells == 1 ? "single cell region" : full ? "full region" : "proper sub-region";
                 for (int k = 0; k < 3; k++) {
                   const range_t<T> r = impl[k]->getValueRange(vec3i(bx, by, bz), vec3i(ex, ey, ez));
                   C.states++;
